@@ -2,8 +2,14 @@
    Pinned statements only; proofs in STF/Proofs/Pool.v.
    The state-level invariants (for every reachable state: the three built-in pools have both reserves >= 1,
    and the liquidity tokens held in coins never exceed a pool's recorded liquidity) are evaluated on every
-   sealed state of the stf stream; what is proved for all inputs are the per-operation facts they rest on. *)
-From MelVerif Require Import STF.Model STF.Proofs.Pool.
+   sealed state of the stf stream.  PROVED for all inputs: the per-operation arithmetic, and - at the level of
+   the state - that the two phases which move liquidity tokens keep "tokens in coins - recorded liquidity"
+   from growing ([C16_withdrawals_keep_backing], [C16_deposits_keep_backing]); a batch cannot create them
+   either (C01_batch_supply: no issuance of an existing custom denomination outside faucets).
+   and, over the three settlement phases of a whole block and all pools, a liquidity token - counting the
+   tokens parked in other pools' reserves - that is backed before is backed after ([C16_settlement_keeps_backing]).
+   NOT proved: the composition over whole histories (faucets of test networks can mint any denomination). *)
+From MelVerif Require Import STF.Model STF.Proofs.Supply STF.Proofs.Pool STF.Proofs.SealCoins STF.Proofs.BatchSupply STF.Proofs.SealSupply STF.Proofs.SealLift STF.Proofs.Witness STF.Proofs.Witness2.
 Open Scope N_scope.
 
 (* swapping leaves both reserves of a live pool positive and the issued liquidity unchanged *)
@@ -40,6 +46,110 @@ Theorem C16_shares_backed : forall total total_mt mts avail,
 Proof. exact clamped_shares_le. Qed.
 Print Assumptions C16_shares_backed.
 
+(* withdrawals burn exactly what they take out of coins: coins' tokens + old liquidity <= old tokens + new liquidity *)
+Theorem C16_withdrawals_keep_backing : forall SO k,
+  Custom (so_liq_denom SO (poolkey_code k)) <> fst k -> Custom (so_liq_denom SO (poolkey_code k)) <> snd k ->
+  forall s ws s' p,
+  withdrawals_single_pool k s ws = Ok s' ->
+  get_pool s k = Some p -> p_lefts p < U128 -> p_rights p < U128 ->
+  NoDup (flat_map (fun t => [key0 t; key1 t]) ws) ->
+  (forall t, In t ws -> declared0 s t /\ cd_denom (out0 t) = Custom (so_liq_denom SO (poolkey_code k))) ->
+  nsum (map (fun t => cd_value (out0 t)) ws) < U128 ->
+  exists p', ((s' = s /\ p' = p) \/ s_pools s' = <[poolkey_code k := p']> (s_pools s)) /\
+    (forall d, d <> Custom (so_liq_denom SO (poolkey_code k)) ->
+       coin_supply d (s_coins s') + side d k p' <= coin_supply d (s_coins s) + side d k p) /\
+    coin_supply (Custom (so_liq_denom SO (poolkey_code k))) (s_coins s') + p_liqs p
+    <= coin_supply (Custom (so_liq_denom SO (poolkey_code k))) (s_coins s) + p_liqs p'.
+Proof. exact withdrawals_single_pool_conserves. Qed.
+Print Assumptions C16_withdrawals_keep_backing.
+
+(* deposits hand out at most what the pool issued *)
+Theorem C16_deposits_keep_backing : forall SO k,
+  Custom (so_liq_denom SO (poolkey_code k)) <> fst k -> Custom (so_liq_denom SO (poolkey_code k)) <> snd k ->
+  forall s deps s',
+  deposits_single_pool SO k s deps = Ok s' ->
+  legacy_net s && (s_height s <? 978392) = false ->
+  NoDup (key_pairs deps) ->
+  (forall t, In t deps -> declared0 s t /\ declared1 s t /\ cd_denom (out0 t) = fst k /\ cd_denom (out1 t) = snd k) ->
+  nsum (map (fun t => cd_value (out0 t)) deps) < U128 -> nsum (map (fun t => cd_value (out1 t)) deps) < U128 ->
+  let p := match get_pool s k with Some p => p | None => new_empty_pool end in
+  (forall p'' m, pool_deposit p (nsum (map (fun t => cd_value (out0 t)) deps)) (nsum (map (fun t => cd_value (out1 t)) deps)) = Ok (p'', m) ->
+                 p_liqs p + m < U128) ->
+  exists p', s_pools s' = <[poolkey_code k := p']> (s_pools s) /\
+    (forall d, d <> Custom (so_liq_denom SO (poolkey_code k)) ->
+       coin_supply d (s_coins s') + side d k p' <= coin_supply d (s_coins s) + side d k p) /\
+    coin_supply (Custom (so_liq_denom SO (poolkey_code k))) (s_coins s') + p_liqs p
+    <= coin_supply (Custom (so_liq_denom SO (poolkey_code k))) (s_coins s) + p_liqs p'.
+Proof. exact deposits_single_pool_conserves. Qed.
+Print Assumptions C16_deposits_keep_backing.
+
 (* the built-in pool created at the first seal *)
 Example C16_builtin_pool : p_lefts builtin_pool = 1000000000 /\ p_rights builtin_pool = 1000000000 /\ p_liqs builtin_pool = 1000000000.
 Proof. vm_compute. auto. Qed.
+
+(* the hypotheses of the settlement theorems hold together on a concrete pool (STF/Proofs/Witness2.v) *)
+Example C16_withdraw_witness :
+  (exists s', withdrawals_single_pool w_key w_seal_state [w_wd] = Ok s') /\
+  get_pool w_seal_state w_key = Some w_pool /\ p_lefts w_pool < U128 /\ p_rights w_pool < U128 /\
+  NoDup (flat_map (fun t => [key0 t; key1 t]) [w_wd]) /\
+  (forall t, In t [w_wd] -> declared0 w_seal_state t /\ cd_denom (out0 t) = w_liq) /\
+  nsum (map (fun t => cd_value (out0 t)) [w_wd]) < U128.
+Proof. exact w_withdraw_ok. Qed.
+Example C16_deposit_witness :
+  (exists s', deposits_single_pool w_oracle w_key w_seal_state [w_dep] = Ok s') /\
+  legacy_net w_seal_state && (s_height w_seal_state <? 978392) = false /\
+  NoDup (key_pairs [w_dep]) /\
+  (forall t, In t [w_dep] -> declared0 w_seal_state t /\ declared1 w_seal_state t /\ cd_denom (out0 t) = fst w_key /\ cd_denom (out1 t) = snd w_key) /\
+  nsum (map (fun t => cd_value (out0 t)) [w_dep]) < U128 /\ nsum (map (fun t => cd_value (out1 t)) [w_dep]) < U128 /\
+  (forall p'' m, pool_deposit w_pool (nsum (map (fun t => cd_value (out0 t)) [w_dep])) (nsum (map (fun t => cd_value (out1 t)) [w_dep])) = Ok (p'', m) ->
+                 p_liqs w_pool + m < U128).
+Proof. exact w_deposit_ok. Qed.
+
+(* over a whole block: if the tokens of a pool in coins and in other pools' reserves do not exceed the liquidity
+   the pools record for that token before the settlement, they do not exceed it afterwards *)
+Theorem C16_settlement_keeps_backing : forall K SO d s s',
+  settles K SO d s s' -> coin_supply d (s_coins s) + psum K d s <= liq_of K SO d s ->
+  coin_supply d (s_coins s') + psum K d s' <= liq_of K SO d s'.
+Proof. exact settles_backed. Qed.
+Print Assumptions C16_settlement_keeps_backing.
+Theorem C16_settlement : forall K, NoDup (map poolkey_code K) -> forall SO s1 s2 s3 s4,
+  process_swaps s1 = Ok s2 -> process_deposits SO s2 = Ok s3 -> process_withdrawals SO s3 = Ok s4 ->
+  legacy_net s1 && (s_height s1 <? 978392) = false ->
+  (forall t k, In t (sorted_txs s1) -> tx_pool t = Some k -> In k K /\ LDk SO k <> fst k /\ LDk SO k <> snd k) ->
+  NoDup (key_pairs (sorted_txs s1)) ->
+  (forall t c, In t (sorted_txs s1) -> s_coins s1 !! key0 t = Some c -> as_declared c (out0 t)) ->
+  (forall t c, In t (sorted_txs s1) -> s_coins s1 !! key1 t = Some c -> as_declared c (out1 t)) ->
+  nsum (map (fun t => cd_value (out0 t)) (sorted_txs s1)) < U128 ->
+  nsum (map (fun t => cd_value (out1 t)) (sorted_txs s1)) < U128 ->
+  (forall k p'' m, In k K ->
+     pool_deposit (pool_at s2 k)
+       (nsum (map (fun t => cd_value (out0 t)) (txs_for_pool (List.filter (is_deposit_request s2) (sorted_txs s2)) k)))
+       (nsum (map (fun t => cd_value (out1 t)) (txs_for_pool (List.filter (is_deposit_request s2) (sorted_txs s2)) k))) = Ok (p'', m) ->
+     p_liqs (pool_at s2 k) + m < U128) ->
+  (forall k p, In k K -> get_pool s3 k = Some p -> p_lefts p < U128 /\ p_rights p < U128) ->
+  forall d, settles K SO d s1 s4.
+Proof. exact settlement_settles. Qed.
+Print Assumptions C16_settlement.
+
+(* the same over a whole seal, for every custom denomination - in particular every liquidity token: with
+   [C16_settlement_keeps_backing], tokens that are backed before a block is sealed are backed afterwards *)
+Theorem C16_seal_keeps_custom_backing : forall K, NoDup (map poolkey_code K) -> forall SO, In MS K /\ In ME K /\ In ES K ->
+  forall s a s' h,
+  seal SO s a = Ok s' ->
+  legacy_net s && (s_height s <? 978392) = false ->
+  (forall t k, In t (sorted_txs s) -> tx_pool t = Some k -> In k K /\ LDk SO k <> fst k /\ LDk SO k <> snd k) ->
+  NoDup (key_pairs (sorted_txs s)) ->
+  (forall t c, In t (sorted_txs s) -> s_coins s !! key0 t = Some c -> as_declared c (out0 t)) ->
+  (forall t c, In t (sorted_txs s) -> s_coins s !! key1 t = Some c -> as_declared c (out1 t)) ->
+  nsum (map (fun t => cd_value (out0 t)) (sorted_txs s)) < U128 ->
+  nsum (map (fun t => cd_value (out1 t)) (sorted_txs s)) < U128 ->
+  (forall s2 s3, process_swaps (create_builtins s) = Ok s2 -> process_deposits SO s2 = Ok s3 ->
+     (forall k p'' m, In k K ->
+        pool_deposit (pool_at s2 k)
+          (nsum (map (fun t => cd_value (out0 t)) (txs_for_pool (List.filter (is_deposit_request s2) (sorted_txs s2)) k)))
+          (nsum (map (fun t => cd_value (out1 t)) (txs_for_pool (List.filter (is_deposit_request s2) (sorted_txs s2)) k))) = Ok (p'', m) ->
+        p_liqs (pool_at s2 k) + m < U128) /\
+     (forall k p, In k K -> get_pool s3 k = Some p -> p_lefts p < U128 /\ p_rights p < U128)) ->
+  settles K SO (Custom h) s s'.
+Proof. exact seal_settles_custom. Qed.
+Print Assumptions C16_seal_keeps_custom_backing.
